@@ -9,11 +9,14 @@ use vaporetto_rules::{
     SentenceFilter, StringFilter,
 };
 
-const LINES: [&str; 14] = [
+const LINES: [&str; 19] = [
     "まぁ社長は火星猫だ", "", "これは12個のABCです", "a b/c\\d", "火星に行きました。", " ", "ｶﾞｷﾞ half-width ｱ", "１２３４５円", "x", "e\u{301}e\u{301}猫",
     "a\0b", "//", "\\", "まぁ良いだろう 火星猫",
+    // half-width characters whose full-width form has the same byte length; runs a character-type filter merges across
+    // words the model knows; digits next to kanji
+    "｢火星猫｣､まぁ良いだろう｡", "ラ－メン", "火星猫", "12火星猫だ", "abc｢火星猫｣",
 ];
-const WSCONST: [&[&str]; 4] = [&[], &["D"], &["G"], &["D", "R"]];
+const WSCONST: [&[&str]; 4] = [&[], &["D"], &["G"], &["K", "R"]];
 
 fn work_dir() -> std::path::PathBuf {
     let d = std::path::Path::new(env!("CARGO_MANIFEST_DIR")).join("../out/c20");
@@ -41,6 +44,7 @@ fn filters(ws: &[&str]) -> Vec<Box<dyn SentenceFilter>> {
                 "G" => Box::new(ConcatGraphemeClustersFilter),
                 "D" => Box::new(KyteaWsConstFilter::new(CharacterType::Digit)),
                 "R" => Box::new(KyteaWsConstFilter::new(CharacterType::Roman)),
+                "K" => Box::new(KyteaWsConstFilter::new(CharacterType::Kanji)),
                 _ => unreachable!(),
             }
         })
@@ -159,7 +163,8 @@ fn check_predict(code: usize) -> Option<String> {
 }
 
 // ---- evaluate ----
-const GOLD: [&str; 6] = ["まぁ/名詞/マー 社長/名詞/シャチョー は/助詞/ワ 火星/名詞/カセー 猫/名詞/ネコ だ/助動詞/ダ", "", "まぁ 良い だろう", "火星 に 行き まし た", "１２ 個 の ABC", "x"];
+// (a sentence whose LAST word the model gets wrong is followed by sentences whose first word it gets right, and the other way round)
+const GOLD: [&str; 9] = ["まぁ/名詞/マー 社長/名詞/シャチョー は/助詞/ワ 火星/名詞/カセー 猫/名詞/ネコ だ/助動詞/ダ", "", "火星 猫だ", "まぁ 良い だろう", "火星 に 行き まし た", "１２ 個 の ABC", "x", "まぁ良い だろう", "火星 猫 だ"];
 
 fn expected_evaluate(no_norm: bool, tags: bool, word: bool, ws: &[&str]) -> String {
     let (m, _) = Model::read_slice(&model_bytes()).unwrap();
